@@ -146,6 +146,11 @@ def main():
             strips = ci == 1
             if strips:
                 W, H = 240, 200
+            # another: two inputs that each span whole deepest tiles and each have an undefined strip (a bad column range) where the
+            # other one is defined
+            spanning = ci == 2
+            if spanning:
+                W, H = 640, 640
             npr = np.random.RandomState(rng.randrange(2 ** 31))
             M = npr.randint(1, 60000, size=(H, W)).astype(np.float32)
             # undefined blobs in the sky itself
@@ -155,12 +160,16 @@ def main():
             k = rng.randint(1, 6) if ci else 3
             if strips:
                 k = 8
+            if spanning:
+                k = 2
             rects = []
             # make sure the union touches all four sides of the mosaic
             must = [(0, 0), (W - 1, H - 1)]
             for j in range(k):
                 if strips:
                     ox, oy, w, hh = 30 * j, 0, 30, H
+                elif spanning:
+                    ox, oy, w, hh = (0, 0, 600, H) if j == 0 else (40, 0, 600, H)
                 elif j < 2 and k >= 2:
                     px, py_ = must[j]
                     w = rng.randint(max(1, W // 3), W)
@@ -185,6 +194,13 @@ def main():
                     d[-b:, :] = np.nan
                     d[:, :b] = np.nan
                     d[:, -b:] = np.nan
+                # undefined pixels of this input alone (bad columns, a masked star): other inputs may define them
+                if spanning:
+                    x0 = 100 + 150 * len(subs)
+                    d[:, x0:x0 + 50] = np.nan
+                elif not strips and rng.random() < 0.5 and w > 8 and hh > 8:
+                    yb, xb = rng.randrange(hh), rng.randrange(w)
+                    d[yb:yb + rng.randint(1, max(1, hh // 3)), xb:xb + rng.randint(1, max(1, w // 3))] = np.nan
                 subs.append(d)
                 cur = E[oy:oy + hh, ox:ox + w]
                 E[oy:oy + hh, ox:ox + w] = np.where(np.isnan(d), cur, d)
